@@ -343,10 +343,17 @@ def assume_support(B, x):
         B.assume(v > 0)
 
 
-def run_op(B, o, op, pts):
+def run_op(B, o, op, pts, buf=None):
     kind, which = op[0], op[1]
     x = pts[which]
-    xa = ps.arr(B, x)
+    if buf is not None and len(buf) == len(x):
+        # the caller re-uses one array for all its evaluations and writes
+        # the next point into it (coordinate updates, finite differences)
+        for k, v in enumerate(x):
+            buf[k] = v
+        xa = buf
+    else:
+        xa = ps.arr(B, x)
     snap = [e for e in xa]
     res = o.ops[kind](xa)
     ok = all(a is b for a, b in zip(xa, snap)) and o.inputs_unchanged()
@@ -363,6 +370,7 @@ def case_seq(B, cfg):
     seen = {}
     reconfigured = set()
     del _HELD[:]
+    buf = ps.arr(B, pts['x']) if cfg.get('shared_buffer') else None
     for step, (oi, op, which) in enumerate(seq):
         o = objs[oi]
         if op == 'f':
@@ -373,7 +381,7 @@ def case_seq(B, cfg):
         if op not in o.ops:
             continue
         try:
-            res, ok = run_op(B, o, (op, which), pts)
+            res, ok = run_op(B, o, (op, which), pts, buf)
         except Exception as e:
             B.fact('no-exception: step %d (%s at %s)' % (step, op, which),
                    False, repr(e))
@@ -527,6 +535,22 @@ def jobs(tier):
             for seq in sib:
                 out.append(('seq', 'case_seq', dict(
                     kind=kind, seq=[list(s) for s in seq]), facade))
+    # one parameter array re-used (written in place) for all evaluations
+    for kind in ('ll_sym', 'll_pk', 'hier', 'post_pk', 'filterpost',
+                 'll_red_em', 'red_pop', 'red_em'):
+        facade = FACADE if 'pk' in kind else {'diffcheck': False}
+        for seq in itertools.product(single_ops, repeat=2):
+            if seq[0][2] == seq[1][2]:
+                continue
+            out.append(('seq', 'case_seq', dict(
+                kind=kind, seq=[list(s_) for s_ in seq], shared_buffer=True),
+                facade))
+        for seq in ([(0, 'v', 'x'), (0, 'v', 'y'), (0, 'v', 'x')],
+                    [(0, 'v', 'x'), (0, 's', 'y'), (0, 'v', 'y')],
+                    [(0, 's', 'x'), (0, 'v', 'y'), (0, 'p', 'x')]):
+            out.append(('seq', 'case_seq', dict(
+                kind=kind, seq=[list(s_) for s_ in seq], shared_buffer=True),
+                facade))
     # evaluations, a reconfiguration, evaluations
     pres = [[], ['s'], ['v'], ['s', 'v'], ['v', 's'], ['p', 's']]
     posts = [['s'], ['v'], ['s', 'v'], ['v', 's'], ['s', 's'], ['p', 's']]
